@@ -420,6 +420,13 @@ class Folder(object):
                         return SAFE_BUILTINS[bn](*args)
                     except Exception:
                         return U
+                if nm == "builtins.map" and len(e.args) == 2 and isinstance(e.args[0], ast.Attribute) and isinstance(e.args[0].value, ast.Name) \
+                        and e.args[0].value.id == "str" and e.args[0].attr in ("casefold", "lower", "upper", "strip", "lstrip", "rstrip", "title", "capitalize"):
+                    # map(str.<pure method>, <constant strings>)
+                    seq = self._e(e.args[1], env, at)
+                    if isinstance(seq, (tuple, list)) and all(isinstance(x, str) for x in seq):
+                        return [getattr(x, e.args[0].attr)() for x in seq]
+                    return U
                 if nm == "builtins.getattr" and len(e.args) >= 2:
                     o, a = self._e(e.args[0], env, at), self._e(e.args[1], env, at)
                     if isinstance(o, NT) and isinstance(a, str) and a in o.fields:
